@@ -1,0 +1,26 @@
+//go:build verif
+
+// Contracts for the setec command, checked by /verif (govc). This file is
+// comment-only: it adds no code under any build tag.
+
+package main
+
+// What "setec put" sends for input bytes v under the current flags, and when it refuses.
+//@ pred surrounded(v string) { len(trimSpace(v)) != len(v) }
+//@ fn putText(v string) string { ite(!utf8valid(v) || !surrounded(v) || putArgs.Verbatim, v, trimSpace(v)) }
+//@ pred putRefused(v string) { utf8valid(v) && surrounded(v) && !putArgs.Verbatim && !putArgs.TrimSpace }
+
+//@ func checkPutText(value) (out, err)
+//@   ensures [C18 puttext.policy] !putRefused(bytes(value)) ==> (err == nil && bytes(out) == putText(bytes(value)))
+//@   ensures [C18 puttext.refused] putRefused(bytes(value)) ==> (err != nil && len(out) == 0)
+//@   ensures [C18 puttext.binary-verbatim] !utf8valid(bytes(value)) ==> (err == nil && bytes(out) == bytes(value))
+//@   ensures [C18 puttext.verbatim-wins] putArgs.Verbatim ==> (err == nil && bytes(out) == bytes(value))
+//@   ensures [C18 puttext.no-request] httpCalls == old(httpCalls)
+
+//@ func runPut(env, name) (err)
+//@   requires env != nil
+//@   ensures [C18 runput.file-refusals-send-nothing] (putArgs.File != "" && diskHas(old(disk), putArgs.File) && (putRefused(diskData(old(disk), putArgs.File)) || (len(putText(diskData(old(disk), putArgs.File))) == 0 && !putArgs.EmptyOK))) ==> (err != nil && httpCalls == old(httpCalls))
+//@   ensures [C18 runput.at-most-one-request] httpCalls == old(httpCalls) || httpCalls == old(httpCalls) + 1
+//@   at call Put: assert [C18 runput.file-sends-checked-bytes] putArgs.File != "" ==> (bytes(arg_value) == putText(diskData(disk, putArgs.File)) && !putRefused(diskData(disk, putArgs.File)) && (len(arg_value) != 0 || putArgs.EmptyOK))
+//@   at call Put: assert [C18 runput.pipe-sends-checked-bytes] (putArgs.File == "" && !stdinIsTerminal) ==> (bytes(arg_value) == putText(lastReadBytes) && !putRefused(lastReadBytes) && (len(arg_value) != 0 || putArgs.EmptyOK))
+//@   at call Put: assert [C18 runput.name] arg_name == name
